@@ -1,6 +1,7 @@
 package nflog
 
 import (
+	"github.com/prometheus/client_golang/prometheus"
 	"time"
 
 	"google.golang.org/protobuf/types/known/timestamppb"
@@ -31,6 +32,7 @@ func vfEntry10(gkey string, recv *pb.Receiver, ts, exp time.Time) *pb.MeshEntry 
 // The post-state holds the entry with the newest timestamp among the stored one
 // and the incoming one, an older entry never overwrites a newer one, an expired
 // entry is never accepted, and the return value says exactly whether it was taken.
+//
 //vf:bounds unwind=4 decisions=60
 //vf:expect reach=taken-fresh reach=taken-newer reach=refused-older reach=refused-expired
 func VerifC10_MergeStep() {
@@ -77,4 +79,207 @@ func VerifC10_MergeStep() {
 		vfAssert("never-backwards", !cur.Entry.Timestamp.AsTime().Before(prevTs))
 	}
 	vfAssert("len", len(st) <= 1)
+}
+
+func hNewLog10(retention time.Duration) *Log {
+	l, err := New(Options{Retention: retention, Metrics: prometheus.NewRegistry()})
+	if err != nil {
+		panic(err)
+	}
+	return l
+}
+
+// VerifC10_Log: Log() from an arbitrary pre-state at an arbitrary instant.
+// If the stored timestamp is after now nothing changes; otherwise Query returns an
+// entry with Timestamp = now, the given alert hashes, the same receiver data and
+// ExpiresAt = now + (expiry>0 && retention>expiry ? expiry : retention); exactly
+// one broadcast happens.
+//
+//vf:bounds unwind=6 decisions=80
+//vf:expect reach=kept-newer reach=logged reach=expiry-used reach=retention-used
+func VerifC10_Log() {
+	retention := vfSeconds("retention", 1, 400*86400)
+	expiry := vfSeconds("expiry", 0, 800*86400)
+	l := hNewLog10(retention)
+	recv := &pb.Receiver{GroupName: "r", Integration: "webhook", Idx: 1}
+	other := &pb.Receiver{GroupName: "r", Integration: "webhook", Idx: 2}
+	hasPrev := vfBool("hasPrev")
+	prevTs := vfT10("prevTs")
+	var prev *pb.MeshEntry
+	if hasPrev {
+		prev = vfEntry10("g", recv, prevTs, vfT10("prevExp"))
+		prev.Entry.FiringAlerts = []uint64{7}
+		l.st[stateKey("g", recv)] = prev
+	}
+	// an unrelated key must never be touched or returned
+	otherE := vfEntry10("g", other, vfT10("otherTs"), vfT10("otherExp"))
+	l.st[stateKey("g", other)] = otherE
+
+	bcasts := 0
+	l.SetBroadcast(func(b []byte) { bcasts++ })
+	vfAdvance(vfDuration("advance", 0, int64OfDays10(30000)))
+	now := vfNow()
+	store := NewStore(nil)
+	store.SetInt("threadTs", 42)
+	store.SetStr("channel", "c1")
+	firing := []uint64{1, 2}
+	resolved := []uint64{3}
+	// equal timestamps are outside the property's quantifier (distinct update times)
+	vfAssume(!hasPrev || !prevTs.Equal(now))
+	err := l.Log(recv, "g", firing, resolved, store, expiry)
+	vfAssert("log-no-error", err == nil)
+
+	entries, qerr := l.Query(QReceiver(recv), QGroupKey("g"))
+	vfAssert("query-finds", qerr == nil && len(entries) == 1)
+	got := entries[0]
+	if hasPrev && prevTs.After(now) {
+		vfReach("kept-newer")
+		vfAssert("newer-kept", got == prev.Entry && bcasts == 0)
+	} else {
+		vfReach("logged")
+		vfAssert("one-broadcast", bcasts == 1)
+		vfAssert("ts-now", got.Timestamp.AsTime().Equal(now))
+		vfAssert("alerts-stored", len(got.FiringAlerts) == 2 && got.FiringAlerts[0] == 1 && got.FiringAlerts[1] == 2 &&
+			len(got.ResolvedAlerts) == 1 && got.ResolvedAlerts[0] == 3)
+		rs := NewStore(got)
+		iv, ok1 := rs.GetInt("threadTs")
+		sv, ok2 := rs.GetStr("channel")
+		vfAssert("receiver-data-unchanged", ok1 && ok2 && iv == 42 && sv == "c1" && len(got.ReceiverData) == 2)
+		want := now.Add(retention)
+		if expiry > 0 && retention > expiry {
+			want = now.Add(expiry)
+			vfReach("expiry-used")
+		} else {
+			vfReach("retention-used")
+		}
+		vfAssert("expires-at", l.st[stateKey("g", recv)].ExpiresAt.AsTime().Equal(want))
+	}
+	// the other key is untouched and is what a query for it returns
+	oe, oerr := l.Query(QReceiver(other), QGroupKey("g"))
+	vfAssert("other-key-untouched", oerr == nil && len(oe) == 1 && oe[0] == otherE.Entry)
+	_, nerr := l.Query(QReceiver(recv), QGroupKey("unknown"))
+	vfAssert("unknown-not-found", nerr == ErrNotFound)
+}
+
+func int64OfDays10(d int) time.Duration { return time.Duration(d) * 24 * time.Hour }
+
+// VerifC10_GC: after GC at `now` exactly the entries with ExpiresAt > now remain,
+// the returned count is right, entries are kept until their expiry.
+//
+//vf:bounds unwind=8 decisions=120
+//vf:expect reach=dropped reach=kept
+func VerifC10_GC() {
+	l := hNewLog10(time.Hour)
+	keys := []string{"a", "b", "c"}
+	recv := &pb.Receiver{GroupName: "r", Integration: "webhook", Idx: 0}
+	n := 2 + vfTier()
+	exps := make([]time.Time, n)
+	for i := 0; i < n; i++ {
+		exps[i] = vfT10("exp")
+		// GC refuses zero expirations (returns an error); real entries always have one
+		vfAssume(exps[i].Unix() > 0)
+		l.st[stateKey(keys[i], recv)] = vfEntry10(keys[i], recv, vfT10("ts"), exps[i])
+	}
+	vfAdvance(vfDuration("advance", 0, int64OfDays10(30000)))
+	now := vfNow()
+	cnt, err := l.GC()
+	vfAssert("gc-no-error", err == nil)
+	want := 0
+	for i := 0; i < n; i++ {
+		_, present := l.st[stateKey(keys[i], recv)]
+		if exps[i].After(now) {
+			vfReach("kept")
+			vfAssert("unexpired-kept", present)
+		} else {
+			vfReach("dropped")
+			want++
+			vfAssert("expired-dropped", !present)
+		}
+	}
+	vfAssert("count", cnt == want)
+	vfAssert("len", len(l.st) == n-want)
+}
+
+// VerifC10_Converge: the same multiset of entries (distinct timestamps) delivered
+// to two logs in two different orders / batchings, with duplicates, interleaved
+// with nothing else, ends in the same state: per key the newest unexpired entry.
+//
+//vf:bounds unwind=8 decisions=200
+//vf:expect reach=converged
+func VerifC10_Converge() {
+	recvA := &pb.Receiver{GroupName: "r", Integration: "webhook", Idx: 0}
+	gkeys := []string{"g1", "g2"}
+	const n = 3
+	var es [n]*pb.MeshEntry
+	var ts [n]time.Time
+	var key [n]int
+	for i := 0; i < n; i++ {
+		ts[i] = vfT10("ts")
+		key[i] = vfChoice("key", 2)
+		es[i] = vfEntry10(gkeys[key[i]], recvA, ts[i], vfT10("exp"))
+		es[i].Entry.FiringAlerts = []uint64{uint64(i)}
+	}
+	for i := 0; i < n; i++ {
+		for j := i + 1; j < n; j++ {
+			vfAssume(!ts[i].Equal(ts[j]))
+		}
+	}
+	enc := func(idx ...int) []byte {
+		st := state{}
+		var b []byte
+		for _, i := range idx {
+			x, err := marshalMeshEntry(es[i])
+			if err != nil {
+				panic(err)
+			}
+			b = append(b, x...)
+		}
+		_ = st
+		return b
+	}
+	l1 := hNewLog10(time.Hour)
+	l2 := hNewLog10(time.Hour)
+	g1, g2 := 0, 0
+	l1.SetBroadcast(func([]byte) { g1++ })
+	l2.SetBroadcast(func([]byte) { g2++ })
+	// log 1: one by one in index order, then a duplicate of the first
+	for i := 0; i < n; i++ {
+		vfAssert("merge-ok", l1.Merge(enc(i)) == nil)
+	}
+	before := g1
+	vfAssert("merge-ok", l1.Merge(enc(0)) == nil)
+	vfAssert("duplicate-no-gossip", g1 == before)
+	// log 2: a symbolic permutation, first two batched
+	perm := [][3]int{{0, 1, 2}, {0, 2, 1}, {1, 0, 2}, {1, 2, 0}, {2, 0, 1}, {2, 1, 0}}[vfChoice("perm", 6)]
+	if vfBool("batched") {
+		// a batch is a peer's full state: at most one entry per key
+		vfAssume(key[perm[0]] != key[perm[1]])
+		vfAssert("merge-ok", l2.Merge(enc(perm[0], perm[1])) == nil)
+		vfAssert("merge-ok", l2.Merge(enc(perm[2])) == nil)
+	} else {
+		for _, i := range []int{perm[2], perm[1], perm[0], perm[1]} {
+			vfAssert("merge-ok", l2.Merge(enc(i)) == nil)
+		}
+	}
+	now := vfNow()
+	// both hold, per key, the newest entry among those not expired
+	for k := 0; k < 2; k++ {
+		best := -1
+		for i := 0; i < n; i++ {
+			if key[i] != k || es[i].ExpiresAt.AsTime().Before(now) {
+				continue
+			}
+			if best < 0 || ts[best].Before(ts[i]) {
+				best = i
+			}
+		}
+		e1, ok1 := l1.st[stateKey(gkeys[k], recvA)]
+		e2, ok2 := l2.st[stateKey(gkeys[k], recvA)]
+		vfAssert("same-presence", ok1 == ok2 && ok1 == (best >= 0))
+		if best >= 0 {
+			vfAssert("newest-wins-1", e1.Entry.Timestamp.AsTime().Equal(ts[best]) && e1.Entry.FiringAlerts[0] == uint64(best))
+			vfAssert("newest-wins-2", e2.Entry.Timestamp.AsTime().Equal(ts[best]) && e2.Entry.FiringAlerts[0] == uint64(best))
+		}
+	}
+	vfReach("converged")
 }
